@@ -503,9 +503,92 @@ def default_sampler(c, rng):
     return out
 
 
+def _elementwise_args(c, args):
+    """for an element-wise contract called with arrays / lists: the common shape and a function giving the scalar
+    arguments of element k (None if every argument is a scalar)"""
+    import numpy as np
+    if not c.elementwise:
+        return None
+    kinds = c.params or {}
+    arr = {n: np.asarray(v) for n, v in args.items()
+           if kinds.get(n) in ("real", "posreal", "int") and isinstance(v, (np.ndarray, list)) and np.ndim(v) >= 1}
+    if not arr:
+        return None
+    shape = np.broadcast_shapes(*[a.shape for a in arr.values()])
+    flat = {n: np.broadcast_to(a, shape).ravel() for n, a in arr.items()}
+    size = int(np.prod(shape)) if shape else 1
+    return shape, size, (lambda k: {n: (flat[n][k].item() if n in flat else v) for n, v in args.items()})
+
+
+def _contract_check_elementwise(c, args, ew):
+    """the real function is called ONCE with the arrays (that is what the caller does); every clause is then evaluated
+    per element on scalars"""
+    import copy
+    import numpy as np
+    shape, size, at = ew
+    sig = inspect.signature(c.fn_inner)
+    for k in range(size):
+        b0 = sig.bind(**at(k))
+        b0.apply_defaults()
+        for r in c.requires:
+            v = eval_clause_concrete(c, r, dict(b0.arguments))
+            if v is UNDECIDABLE:
+                continue
+            if v is not True:
+                return "skip", None
+    b = sig.bind(**args)
+    try:
+        call_args, call_kwargs = copy.deepcopy(b.args), copy.deepcopy(b.kwargs)
+    except Exception:
+        call_args, call_kwargs = b.args, b.kwargs
+    kind, out = call_real(c.fn_inner, call_args, call_kwargs)
+    if kind == "raise":
+        return "fail", {"clause": "no exception for admissible array arguments", "real_outcome": "raised %r" % (out,)}
+
+    def comp(o):
+        if isinstance(o, tuple):
+            return tuple(comp(x) for x in o)
+        a = np.asarray(o)
+        if a.shape != tuple(shape):
+            raise ValueError("result shape %r for arguments of common shape %r" % (a.shape, tuple(shape)))
+        return a.ravel()
+    try:
+        flat_out = comp(out)
+    except ValueError as exc:
+        return "fail", {"clause": "the result has the (broadcast) shape of the arguments", "real_outcome": str(exc)}
+
+    def pick(o, k):
+        return tuple(pick(x, k) for x in o) if isinstance(o, tuple) else o[k].item()
+    for k in range(size):
+        b0 = sig.bind(**at(k))
+        b0.apply_defaults()
+        env = dict(b0.arguments)
+        env["result"] = pick(flat_out, k)
+        for j, e in enumerate(c.ensures):
+            if "_locals" in e:
+                continue
+            v = eval_clause_concrete(c, e, env)
+            if v is UNDECIDABLE:
+                continue
+            if v is not True:
+                return "fail", {"clause": e, "index": j, "element": k, "element_args": {n: x for n, x in at(k).items() if not callable(x)},
+                                "real_outcome": _short(out), "clause_value": v}
+    # frame: an element-wise function leaves its array arguments as they were
+    for n, v in args.items():
+        if isinstance(v, np.ndarray):
+            pos = list(sig.parameters).index(n)
+            after = call_args[pos] if pos < len(call_args) else call_kwargs.get(n)
+            if isinstance(after, np.ndarray) and not np.array_equal(after, v, equal_nan=after.dtype.kind == "f"):
+                return "fail", {"clause": "frame: argument %s is not modified" % n, "real_outcome": _short(after)}
+    return "ok", None
+
+
 def contract_check_concrete(c, args):
     """evaluate contract c on concrete args against the real function.
     returns (verdict, detail): verdict in 'skip' (requires false), 'ok', 'fail'"""
+    ew = _elementwise_args(c, args)
+    if ew is not None:
+        return _contract_check_elementwise(c, args, ew)
     sig = inspect.signature(c.fn_inner)
     b = sig.bind(**args)
     b0 = sig.bind(**args)
